@@ -1,0 +1,32 @@
+/*
+ * Verification hooks for the search loop (compiled in only with -DOPENSMT_VERIF).
+ *
+ * When, in addition to OPENSMT_VERIF_TRACE, the environment variable OPENSMT_VERIF_SEARCH is set, the SAT engine appends
+ * one record per change of its trail: "sq" enqueue (variable, position, first literal of its level?), "sk" truncation (new
+ * size), "ss" start of a search() call (conflict limit, number of variables), "sr" restart (conflicts of this call, limit),
+ * "se" end of a search() call (status).  Without the define every macro below expands to nothing.
+ */
+#ifndef OPENSMT_VERIFSEARCH_H
+#define OPENSMT_VERIFSEARCH_H
+
+#ifdef OPENSMT_VERIF
+#include "VerifTrace.h"
+
+namespace opensmt::verif {
+inline bool searchOn() {
+    static bool const flag = on() and std::getenv("OPENSMT_VERIF_SEARCH") != nullptr;
+    return flag;
+}
+} // namespace opensmt::verif
+
+#define VERIF_SEARCH(...)                                                                                              \
+    do {                                                                                                               \
+        if (::opensmt::verif::searchOn()) ::opensmt::verif::line(__VA_ARGS__);                                         \
+    } while (0)
+#else
+#define VERIF_SEARCH(...)                                                                                              \
+    do {                                                                                                               \
+    } while (0)
+#endif
+
+#endif // OPENSMT_VERIFSEARCH_H
